@@ -86,6 +86,9 @@ def bound(cfg):
     return ttl + per + cfg["init"][1] + sum(cfg["base"] * 2 ** i for i in range(cfg["reps"])) + RR[1] + 3 * cfg["ct"] + 2 * cfg["lat"] + 1.0
 
 
+_STARTS = [0, 0]
+
+
 class Stack:
     """one peer: (re)creates protocol objects, keeps per-incarnation listener logs"""
 
@@ -175,7 +178,16 @@ class Stack:
 
     def graceful_start(self):
         if self.alive and not self.started:
-            self.prot.start()
+            # every other restart brings the three components up one by one (as tools/monitor-sd.py starts the discovery half
+            # alone) instead of through the stack's start(); the stop that follows goes through the stack's stop() either way
+            _STARTS[0] += 1
+            if _STARTS[0] % 2:
+                self.prot.subscriber.start()
+                self.prot.announcer.start()
+                self.prot.discovery.start()
+                _STARTS[1] += 1
+            else:
+                self.prot.start()
             self.started = True
 
     def crash(self):
@@ -292,6 +304,8 @@ def run_script(ctx, cfg, actions, t_last, seed, replay, descr, watchers=1):
     t_eval = t_quiet + B
     w.h.run(t_eval)
     ctx.count("scripts")
+    ctx.count("stacks_restarted_component_by_component", _STARTS[1])
+    _STARTS[1] = 0
     ctx.count("datagrams_exchanged", len(w.net.log))
     if cfg["a_ttl"] == FOREVER:
         ctx.count("infinite_ttl_scripts")
